@@ -53,11 +53,13 @@ pub struct CatOpts {
     pub max_batches: usize,
     /// restrict column types (empty = all)
     pub types: Vec<ColTy>,
+    /// force this many rows on table 0, cut into ≥ 2 batches (size stream around the engine's 1000 / 1024 / 8192 / 10000-row gates)
+    pub big_rows: Option<usize>,
 }
 impl Default for CatOpts {
     fn default() -> Self {
         CatOpts { max_tables: 3, max_cols: 5, sizes: vec!["tiny".into(), "small".into(), "small".into(), "small".into()], multi_partition: false, boundary: false,
-                  special_floats: false, nulls: true, shared_names: false, max_batches: 4, types: vec![] }
+                  special_floats: false, nulls: true, shared_names: false, max_batches: 4, types: vec![], big_rows: None }
     }
 }
 impl CatOpts {
@@ -143,7 +145,7 @@ pub fn gen_catalog(r: &mut Rng, o: &CatOpts) -> Catalog {
             let letter = (b'a' + (c as u8 - 1)) as char;
             cols.push(ColSpec { name: if o.shared_names { format!("{}", letter) } else { format!("{}{}", letter, t) }, cty, null_pct, boundary, special, unique: false });
         }
-        let n = if o.multi_partition && t == 0 { 1000 + r.below(1200) as usize } else { let cl = r.pick(&o.sizes).clone(); draw_rows(r, &cl) };
+        let n = if let (Some(b), 0) = (o.big_rows, t) { b } else if o.multi_partition && t == 0 { 1000 + r.below(1200) as usize } else { let cl = r.pick(&o.sizes).clone(); draw_rows(r, &cl) };
         let doms: Vec<u64> = cols.iter().map(|_| *r.pick(&[2u64, 3, 4, 6, 8])).collect();
         let mut rows = Vec::with_capacity(n);
         // row ids are unique but shuffled, so physical order is not id order
@@ -160,7 +162,7 @@ pub fn gen_catalog(r: &mut Rng, o: &CatOpts) -> Catalog {
             }
             rows.push(row);
         }
-        let cuts = if o.multi_partition && t == 0 {
+        let cuts = if (o.multi_partition || o.big_rows.is_some()) && t == 0 {
             let k = 2 + r.below(7) as usize; let base = n / k; let mut v = vec![base; k]; v[k - 1] += n - base * k; v
         } else { cut_batches(r, n, o.max_batches) };
         tables.push(TableSpec { name: format!("t{}", t), cols, rows, cuts });
